@@ -242,7 +242,17 @@ pub fn run(ctx: &mut Ctx) {
                         fail = Some(("verdict_differs_from_fresh_solver".into(), json!({"live": status_name(res.status), "fresh": status_name(fresh.status)})));
                     } else if res.status == SolverStatus::Solved && fresh.status == SolverStatus::Solved {
                         let den = fresh.obj_val.abs().max(1.0);
-                        let tol = 20.0 * (st.tol_gap_abs + st.tol_gap_rel * den) + 1e-6 * den;
+                        // two points that both pass the documented test may differ in objective by their gaps plus
+                        // |r_p'z| + |r_d'x| (weak duality with residuals), and the documented residual test only bounds
+                        // r_p by tol_feas*max(1,|b|+|x|+|s|) and r_d by tol_feas*max(1,|q|+|x|+|z|): the slack follows
+                        let ninf = |v: &[f64]| v.iter().fold(0.0f64, |m, x| m.max(x.abs()));
+                        let n1 = |v: &[f64]| v.iter().map(|x| x.abs()).sum::<f64>();
+                        let mut feas_slack = 0.0;
+                        for r in [&res, &fresh] {
+                            let bn = ninf(&pm_problem.b.iter().map(|v| v.min(bound)).collect::<Vec<_>>());
+                            feas_slack += st.tol_feas * ((1.0f64).max(bn + ninf(&r.x) + ninf(&r.s)) * n1(&r.z) + (1.0f64).max(ninf(&pm_problem.q) + ninf(&r.x) + ninf(&r.z)) * n1(&r.x));
+                        }
+                        let tol = 20.0 * (st.tol_gap_abs + st.tol_gap_rel * den) + 1e-6 * den + 4.0 * feas_slack;
                         if !((res.obj_val - fresh.obj_val).abs() <= tol) {
                             fail = Some(("objective_differs_from_fresh_solver".into(), json!({"live": res.obj_val, "fresh": fresh.obj_val, "tol": tol})));
                         }
@@ -431,6 +441,45 @@ pub fn run(ctx: &mut Ctx) {
                     let vq: Vec<f64> = model.q.iter().map(|x| x + rng.range(-0.3, 0.3)).collect();
                     let vb: Vec<f64> = model.b.iter().map(|x| x + rng.range(-0.3, 0.3)).collect();
                     let e0: [f64; 0] = [];
+                    if !presolve_active && m > 0 && rng.bool(0.3) {
+                        // a composite call whose leading terms are fine and whose LAST term is refused (b of the wrong
+                        // length): update_data is "the four updates in order", so P, q and A are applied and the
+                        // error comes back; whatever has been applied must have reached every copy (data, KKT, engine)
+                        let vp: Vec<f64> = model.p.nzval.iter().map(|x| x * rng.range(0.9, 1.1)).collect();
+                        let va: Vec<f64> = model.a.nzval.iter().map(|x| x * rng.range(0.9, 1.1) + 0.01 * rng.range(-1.0, 1.0)).collect();
+                        let vbad = vec![1.0; m + 1];
+                        result = catch(std::panic::AssertUnwindSafe(|| map_err!(solver.update_data(&vp, &vq, &va, &vbad)))).unwrap_or_else(|e| Err(format!("PANIC {e}")));
+                        expect_ok = false;
+                        if !vp.is_empty() {
+                            model.p.nzval = vp.clone();
+                        }
+                        if n > 0 {
+                            model.q = vq.clone();
+                        }
+                        if !va.is_empty() {
+                            model.a.nzval = va.clone();
+                        }
+                        desc["composite_with_refused_last_term"] = json!(true);
+                        desc["P"] = json!(vp);
+                        desc["A"] = json!(va);
+                        desc["q"] = json!(vq);
+                        desc["result"] = json!(format!("{result:?}"));
+                        hist.push(desc);
+                        ctx.eval(1);
+                        ctx.bump("op_update_data_with_refused_last_term");
+                        match &result {
+                            Err(e) if e.starts_with("PANIC") => fail = Some(("update_panicked".into(), json!({"panic": e}))),
+                            Ok(()) => fail = Some(("invalid_update_accepted".into(), json!({"composite": true}))),
+                            Err(e) if !e.contains("IncompatibleDimension") => fail = Some(("wrong_error_kind".into(), json!({"error": e, "expected": "IncompatibleDimension"}))),
+                            Err(_) => {}
+                        }
+                        if fail.is_none() {
+                            if let Some(f) = check_sync(&solver, &model, None) {
+                                fail = Some((format!("{}:after_partly_refused_update_data", f.0), f.1));
+                            }
+                        }
+                        continue;
+                    }
                     result = catch(std::panic::AssertUnwindSafe(|| map_err!(solver.update_data(&e0, &vq, &e0, &vb)))).unwrap_or_else(|e| Err(format!("PANIC {e}")));
                     if expect_ok {
                         if n > 0 {
